@@ -3,6 +3,8 @@ package harness
 import (
 	"bytes"
 	"fmt"
+	"os"
+	"path/filepath"
 	"sort"
 	"strings"
 
@@ -415,8 +417,95 @@ func runHistory(tp *simrt.Tape, task int, nops int, fail func(class, msg string)
 	}
 }
 
+// c07Script: the same laws through the Lua binding of obiscript - a script that asks for the
+// reverse complement and a window of every record and goes on using the record itself.
+const c07Lua = `
+function worker(sequence)
+    local rc = sequence:reverse_complement()
+    sequence:attribute("rc", rc:sequence())
+    sequence:attribute("self", sequence:sequence())
+    if sequence:len() >= 4 then
+        local sub = sequence:subsequence(1, 3)
+        sequence:attribute("sub", sub:sequence())
+        sequence:attribute("subrc", sub:reverse_complement():sequence())
+        sequence:attribute("self2", sequence:sequence())
+    end
+    return sequence
+end
+`
+
+func c07Script(rc *RunCtx, t *simrt.Tape) {
+	n := 3 + t.Choose(30)
+	fastq := t.Choose(2) == 1
+	recs := genRecs(t, n, 0, fastq, 1, 60)
+	for i := range recs {
+		recs[i].Annot, recs[i].Def = map[string]any{"count": 1 + t.Choose(3)}, ""
+		if t.Choose(3) == 2 {
+			b := []byte(recs[i].Seq)
+			b[t.Choose(len(b))] = "ryswkmbdhvn"[t.Choose(11)]
+			recs[i].Seq = string(b)
+		}
+	}
+	p := drawParCfg(t, n)
+	dir := filepath.Join(rc.Dir, fmt.Sprintf("s%d", rc.Index))
+	os.MkdirAll(dir, 0755)
+	defer cleanup(dir)
+	in := filepath.Join(dir, "in.fastx")
+	if fastq {
+		os.WriteFile(in, fastqText(recs, true), 0644)
+	} else {
+		os.WriteFile(in, fastaText(recs, true), 0644)
+	}
+	os.WriteFile(filepath.Join(dir, "laws.lua"), []byte(c07Lua), 0644)
+	out := filepath.Join(dir, "out.fastx")
+	args := append(p.cpuArgs(), "-S", filepath.Join(dir, "laws.lua"), "-o", out, in)
+	rc.Out.Sample = map[string]any{"stage": "obiscript (Lua binding)", "records": n, "config": p.String()}
+	co := rc.RunCmd(CmdSpec{Name: "obiscript", Args: args, Dir: dir, PoolPolicy: p.Pool, YieldDensity: p.Yield, StderrNull: p.ErrNull})
+	rc.Out.Nontrivial = co.Contended > 0
+	rc.Out.Key = fmt.Sprintf("script/%d/%s/%s", n, p, co.Sig)
+	rc.Probe("lua_binding_stage")
+	if !rc.cmdMustSucceed(co, "C07/lua", "obiscript with the laws script ("+p.String()+")") {
+		return
+	}
+	raw, _ := os.ReadFile(out)
+	got, err := parseObiFastx(raw)
+	if err != nil {
+		rc.Violate("C07/lua/unparsable-output", "%v", err)
+		return
+	}
+	if len(got) != len(recs) {
+		rc.Violate("C07/lua/records-differ", "%d records out, %d in", len(got), len(recs))
+		return
+	}
+	for i, g := range got {
+		r := recs[i]
+		e := irecOf(r)
+		if g.ID != r.ID || g.Seq != r.Seq || g.Qual != e.Qual {
+			rc.Violate("C07/lua/source-changed-by-its-reverse-complement", "record %s: the script asked for its reverse complement and a window and returned the record itself, which comes out as id=%s seq=%s qual=%q instead of seq=%s qual=%q",
+				r.ID, g.ID, g.Seq, g.Qual, r.Seq, e.Qual)
+			return
+		}
+		want := map[string]string{"rc": modelRC(r.Seq), "self": r.Seq}
+		if len(r.Seq) >= 4 {
+			want["sub"] = r.Seq[1:3]
+			want["subrc"] = modelRC(r.Seq[1:3])
+			want["self2"] = r.Seq
+		}
+		for _, k := range sortedKeys(want) {
+			if fmt.Sprint(g.Annot[k]) != want[k] {
+				rc.Violate("C07/lua/law-"+k, "record %s (%s): %s = %v, expected %s", r.ID, r.Seq, k, g.Annot[k], want[k])
+				return
+			}
+		}
+	}
+}
+
 func runC07(rc *RunCtx) {
 	t := rc.Plan
+	if t.Choose(40) == 7 {
+		c07Script(rc, t)
+		return
+	}
 	ntasks := 1 + t.Choose(3)
 	nops := 4 + t.Choose(22)
 	seeds := make([]uint64, ntasks)
